@@ -25,6 +25,7 @@ func regLin(l Lin) string {
 // (the continuation will resume the caller), false when handled inline.
 func (x *Explorer) call(fr *Frame, b *ssa.BasicBlock, idx int, ins *ssa.Call, st *State, k cont) bool {
 	cc := &ins.Call
+	x.curTag = x.loopTag(fr, b)
 	var args []Val
 	for _, a := range cc.Args {
 		args = append(args, x.eval(fr, st, a))
@@ -79,7 +80,7 @@ func (x *Explorer) call(fr *Frame, b *ssa.BasicBlock, idx int, ins *ssa.Call, st
 		fr.env[ins] = v
 		return false
 	}
-	if x.shouldInline(callee, binds) && fr.depth < x.maxDepth {
+	if (x.shouldInline(callee, binds) || x.rowArgInline(st, callee, args)) && fr.depth < x.maxDepth {
 		tag := x.loopTag(fr, b)
 		x.callFn(callee, args, binds, st, fr.depth+1, tag, func(st2 *State, rets []Val, kind exitKind, loop string) {
 			if kind != exitReturn {
@@ -140,6 +141,25 @@ func (x *Explorer) shouldInline(fn *ssa.Function, binds []Val) bool {
 	for i := 0; i < sig.Results().Len(); i++ {
 		if isDecType(sig.Results().At(i).Type()) {
 			return true
+		}
+	}
+	return false
+}
+
+// rowArgInline: repo helpers that receive a tracked row (guards such as assertCanMintBatch) are inlined.
+func (x *Explorer) rowArgInline(st *State, fn *ssa.Function, args []Val) bool {
+	if len(fn.Blocks) == 0 {
+		return false
+	}
+	pp := fnPkgPath(fn)
+	if !isRepoPkgPath(pp) || strings.Contains(pp, "/api/v2/") || strings.HasSuffix(pp, mathPkgSuffix) || !pos0(x.P, fn) {
+		return false
+	}
+	for _, a := range args {
+		if p, ok := a.(*Ptr); ok {
+			if o := st.mem[p.O]; o != nil && o.Table != nil {
+				return true
+			}
 		}
 	}
 	return false
